@@ -269,7 +269,7 @@ from_tokens = Fn(T, 'from_tokens', impl='Command', ret='r', pre_rewrites=ANY,
     clone_shims={'tokens': 'vx_clone_tokens'},
     let_types={'tokens_final': 'Tokens', 'redirects_to': 'Vec<Redirection>'},
     ensures=[
-        ('C01+C13.from_tokens.quoted_lt_is_data',
+        ('C01+C13+C04+C11.from_tokens.quoted_lt_is_data',
          '(forall|i: int| 0 <= i < tokens@.len() ==> !is_lt(#[trigger] tokens@[i])) ==> (match r { Ok(c) => c.redirect_from.is_none(), Err(_) => true })'),
         ('C01+C13.from_tokens.plain_args_verbatim',
          'plain_args(tokens@) && tokens@.len() > 0 ==> (match r { Ok(c) => tsv(c.tokens@) == tsv(tokens@) && c.redirects_to@.len() == 0 && c.redirect_from.is_none(), Err(_) => false })'),
@@ -284,9 +284,12 @@ from_tokens = Fn(T, 'from_tokens', impl='Command', ret='r', pre_rewrites=ANY,
         ('C01.inv.from_tokens.untouched', '(forall|i: int| 0 <= i < tokens@.len() ==> !is_lt(#[trigger] tokens@[i])) ==> '
                                           'tsv(tokens_new@) == tsv(tokens@) && redirects_from_type@.len() == 0'),
         ('C04.inv.from_tokens.kind', 'redirects_from_type@.len() == 0 || redirects_from_type@ == "<"@ || redirects_from_type@ == "<<<"@'),
-        ('C01+C13.inv.from_tokens.lt_flag_honours_tag', 'has_redirect_from == exists|i: int| 0 <= i < tokens_new@.len() && is_lt(#[trigger] tokens_new@[i])'),
+        ('C01+C13+C04+C11.inv.from_tokens.lt_flag_honours_tag', 'has_redirect_from == exists|i: int| 0 <= i < tokens_new@.len() && is_lt(#[trigger] tokens_new@[i])'),
     ], decreases='tokens_new@.len()')},
     hints={'loop-0-body-entry': 'lemma_tsv_props(tokens_new@, tokens@);',
+           # the word taken off the command as the input-redirection operator is an UNQUOTED `<` / `<<<`: a quoted, escaped or expanded `<` is an argument
+           'before-text-all:tokens_new.remove(idx);':
+               'LABEL:C01+C13+C04+C11.from_tokens.only_an_unquoted_lt_is_removed_as_operator: assert(idx < tokens_new@.len() && is_lt(tokens_new@[idx as int]));',
            'before-call:tokens_to_redirections': 'lemma_tsv_props(tokens_new@, tokens@);',
            'after-call:vx_clone_tokens': 'lemma_tsv_props(tokens_new@, tokens@);'},
 )
